@@ -149,9 +149,12 @@ type ICase struct {
 	At    int      `json:"at"`
 	NCl   int      `json:"nclones"`
 	NJ    int      `json:"njoint_clones"`
+	// the joint iterators' receiver is a dense matrix of an integer element type (its Ok() reads the second operand's
+	// element converted to that type)
+	IntRecv bool `json:"int_receiver"`
 }
 
-func (c *ICase) Coq() string { return List(c.Steps) }
+func (c *ICase) Coq() string { return fmt.Sprintf("mkIC %s %s", B(c.IntRecv), List(c.Steps)) }
 func (c *ICase) raw() map[string]interface{} {
 	return map[string]interface{}{"stream": "I", "seed": c.Seed, "index": c.Index, "kind": c.Kind, "bad": c.Bad, "at": c.At, "descs": c.Descs}
 }
@@ -187,7 +190,7 @@ func genICase(r *Rng, seed uint64, index int) *ICase {
 	ta := iterKinds[index%len(iterKinds)]
 	rot := (index/len(iterKinds))*5 + index + int(seed%18)
 	tb := ctype{Elt: rot % 9, Sparse: (rot/9)%2 == 1, Mat: ta.Mat}
-	c := &ICase{Seed: seed, Index: index, Kind: ta.String() + " x " + tb.String()}
+	c := &ICase{Seed: seed, Index: index, Kind: ta.String() + " x " + tb.String(), IntRecv: ta.Mat && !ta.Sparse && ta.Elt < 5}
 	rows, cols := 1, r.Range(3, 6)
 	if ta.Mat {
 		rows, cols = r.Range(1, 2), r.Range(2, 3)
